@@ -63,6 +63,13 @@ CHECKS.update({
   note="Trusted: z3/CrossHair, cloudpickle/pydantic/pyrsistent. Assumed: keyword values are bound only to parameters the callable has; a missing annotation is compatible with every type. Outside: the domain-specific type names in `skipped`."),
 })
 
+CHECKS.update({
+ "C18": dict(category="other", design_ref="DESIGN.md §4 C18",
+  technique="symbolic execution (CrossHair/z3) of the real JobRouter + handle_controller/handle_fe with symbolic integer timestamps and solver-chosen report sequences",
+  text="Jobs are registered in a real JobRouter; sequences of 3 (quick) / 4-5 (thorough) controller reports (progress / result upload / shutdown; job chosen per report; each optionally delivered twice) with unbounded symbolic timestamps are fed through the real handle_controller, so every relative order and tie of timestamps is covered on each path. Oracle: per job the displayed progress is carried by a report with the greatest timestamp (initial value if none), shutdown leaves it and unregisters the socket; then concrete JSON queries go through the real handle_fe/parse_request/serialize_response: results are returned exactly as uploaded and only for their (job, dataset), unknown job/dataset get an error and the next query is still answered; spawn_job with an id generator that repeats existing ids never reuses one and leaves other jobs untouched. Decision trees exhausted.",
+  note="Trusted: z3/CrossHair, orjson/pydantic/base64 on concrete values; pickle of reports replaced by identity; subprocess spawning stubbed. Outside: the poller loop of serve(), reports from unknown jobs."),
+})
+
 NA_REASON = "check not built yet in this round (planned, see DESIGN.md §4); not claimed until its harness exists and passes on the unchanged tree"
 
 def main():
